@@ -7,15 +7,18 @@
 //     after package initialisation: the field in the `DefaultOptions = Options{…}` literal of
 //     options.go (absent = false), copied by `DefaultOptions = ojg.DefaultOptions` in alt/alt.go and
 //     overwritten by `DefaultOptions.<Field> = true|false` statements of alt's init();
+//
 //   - for Generify and GenAlter (alt/generifier.go), for the `[]any` and the `map[string]any` clause
 //     of the type switch: whether the recursive call hands its options on (`F(m, opt)`) or not
 //     (`F(m)`: the callee then uses alt.DefaultOptions);
+//
 //   - whether the type switch of Generify / GenAlter has a `json.Number` clause `n = gen.Big(tv)`.
 //
 //   - ojWriterViaSimplify / senWriterViaSimplify: the type switch of oj.Writer.appendJSON /
 //     sen.Writer.appendSEN names no type of package gen before its `case alt.Simplifier:` clause and
 //     that clause is `wr.appendJSON(td.Simplify(), depth)` (resp. appendSEN): a generic node is written
 //     by writing its Simplify() result.
+//
 //   - containerArms: for every conversion function and each of its two container arms (the `[]any` /
 //     `map[string]any` clause of the type switch of Generify, GenAlter, decompose, alter; the bodies of
 //     the methods Simplify, Alter, Dup of gen.Array and gen.Object) two syntactic facts: does the arm
